@@ -83,6 +83,11 @@ class CacheHooks(StdHooks):
                 if 'counter' in cur.fields and des.fields['counter'].value == cur.fields['counter'].value:
                     raise Violation19('F.cas.shape', 'a successful exchange installs a head with the same version number %r (no ABA protection)'
                                       % (cur.fields['counter'].value,), it.loc(node))
+                if 'counter' in cur.fields:
+                    c0, c1 = cur.fields['counter'].value, des.fields['counter'].value
+                    if isinstance(c0, int) and isinstance(c1, int) and c1 < c0 and c0 != 2 ** 32 - 1:
+                        raise Violation19('F.cas.shape', 'a successful exchange takes the version number back from %d to %d: an exchange another thread prepared against an '
+                                          'earlier head with that version and the same record can succeed later (ABA)' % (c0, c1), it.loc(node))
                 cp = it.copy_value(des)
                 cp.tag = obj.name
                 it.write(obj, cp, node)
